@@ -7,13 +7,38 @@ use std::collections::BTreeMap;
 pub fn strip_ts(b: &[u8]) -> String {
     let s = String::from_utf8_lossy(b);
     let mut out = String::with_capacity(s.len());
+    // the timestamp comment: the "Generated at:" line, or - should its wording change - any
+    // line of the leading comment block that carries a date (dddd-dd-dd)
+    let mut in_header = true;
     for line in s.split_inclusive('\n') {
-        if line.trim_start().starts_with("* Generated at:") {
+        let t = line.trim_start();
+        if in_header {
+            if t.starts_with("* Generated at:") || ((t.starts_with('*') || t.starts_with("//") || t.starts_with("/*")) && has_date(t)) {
+                continue;
+            }
+            if !(t.is_empty() || t.starts_with('*') || t.starts_with("/*") || t.starts_with("//")) {
+                in_header = false;
+            }
+        } else if t.starts_with("* Generated at:") {
             continue;
         }
         out.push_str(line);
     }
     out
+}
+
+fn has_date(s: &str) -> bool {
+    let b = s.as_bytes();
+    if b.len() < 10 {
+        return false;
+    }
+    for i in 0..=b.len() - 10 {
+        let w = &b[i..i + 10];
+        if w[..4].iter().all(|c| c.is_ascii_digit()) && w[4] == b'-' && w[5..7].iter().all(|c| c.is_ascii_digit()) && w[7] == b'-' && w[8..10].iter().all(|c| c.is_ascii_digit()) {
+            return true;
+        }
+    }
+    false
 }
 
 pub fn exact_eq(a: &[u8], b: &[u8]) -> bool {
@@ -175,13 +200,58 @@ pub fn schema_sequence(types_ts: &str) -> Vec<(String, Vec<String>)> {
     for b in blocks(types_ts) {
         let first = b.lines().next().unwrap_or("");
         if let Some(rest) = first.strip_prefix("export const ") {
-            if let Some(eq) = rest.find('=') {
-                let name = rest[..eq].trim();
-                if name.ends_with("Schema") {
-                    let rhs = &b[b.find('=').unwrap_or(0)..];
-                    out.push((name.to_string(), schema_idents(rhs)));
-                }
+            // the declared name: the identifier itself (a type annotation may follow it)
+            let name: String = rest.chars().take_while(|c| c.is_ascii_alphanumeric() || *c == '_' || *c == '$').collect();
+            if name.ends_with("Schema") && b.contains('=') {
+                let rhs = &b[b.find('=').unwrap_or(0)..];
+                out.push((name, schema_idents(&strip_deferred(rhs))));
             }
+        }
+    }
+    out
+}
+
+/// Remove what is not evaluated when the statement runs: the bodies of `z.lazy(...)` and
+/// of arrow functions are evaluated later, a reference inside them is not a read.
+fn strip_deferred(s: &str) -> String {
+    let mut out = String::with_capacity(s.len());
+    let b = s.as_bytes();
+    let mut i = 0;
+    while i < b.len() {
+        let lazy = s[i..].starts_with("z.lazy(") || s[i..].starts_with("lazy(");
+        let arrow = s[i..].starts_with("=>");
+        if lazy || arrow {
+            // skip a balanced (...) / {...} group, or - for an arrow without braces - up to the
+            // closing parenthesis / comma of the enclosing call
+            let mut j = i + if arrow { 2 } else { s[i..].find('(').unwrap() };
+            let mut depth = 0i32;
+            let mut started = false;
+            while j < b.len() {
+                match b[j] {
+                    b'(' | b'{' | b'[' => {
+                        depth += 1;
+                        started = true;
+                    }
+                    b')' | b'}' | b']' => {
+                        depth -= 1;
+                        if depth < 0 || (started && depth == 0) {
+                            if depth == 0 {
+                                j += 1;
+                            }
+                            break;
+                        }
+                    }
+                    b',' | b';' if depth == 0 && arrow => break,
+                    _ => {}
+                }
+                j += 1;
+            }
+            out.push(' ');
+            i = j.max(i + 1);
+        } else {
+            let ch_len = s[i..].chars().next().map(|c| c.len_utf8()).unwrap_or(1);
+            out.push_str(&s[i..i + ch_len]);
+            i += ch_len;
         }
     }
     out
